@@ -280,8 +280,25 @@ def eval_case(ctx, case):
             f.write(body)
     src = os.path.join(d, "doc.md")
     detail = {"text": text, "files": files}
+    EXTS = ["colon_fence", "deflist", "fieldlist", "dollarmath", "attrs_block", "attrs_inline", "tasklist"]
     try:
-        doc, wtext = drive.parse(text, source_path=src, myst_enable_extensions=["colon_fence", "deflist", "fieldlist", "dollarmath", "attrs_block", "attrs_inline", "tasklist"], doctitle_xform=False)
+        if case.get("front_end") == "sphinx" and not files:
+            # the same ground truth through the Sphinx front end: node lines from the read doctree, warning lines from Sphinx' log records
+            b = drive.SphinxBuild({"index.md": text}, conf={"myst_enable_extensions": EXTS}, builder="dummy")
+            try:
+                b.build()
+                doc = b.doctree("index")
+                src = os.path.join(b.src, "index.md")
+                lines = []
+                for r in b.records:
+                    mm = re.search(r"^(.*):(\d+)$", str(r["location"] or ""))
+                    lines.append(f"{mm.group(1) if mm else src}:{mm.group(2) if mm else ''}: (WARNING/2) {r['msg']}")
+                wtext = "\n".join(lines)
+            finally:
+                b.close()
+            ctx.count("sphinx_cases")
+        else:
+            doc, wtext = drive.parse(text, source_path=src, myst_enable_extensions=EXTS, doctitle_xform=False)
     except Exception as e:  # noqa: BLE001
         ctx.count("no_document:" + type(e).__name__)
         return 0
@@ -393,6 +410,13 @@ def run_shard(ctx):
         ctx.case(("struct", repr(case)), True)
         if (i & 0x3F) == 0 and ctx.time_left() < ctx.budget_s * 0.85:
             break
+    # 1b. the same nestings through the Sphinx front end
+    for i in range(12 if quick else 1200):
+        case = {"kind": "struct", "chain": [R.choice(cs) for _ in range(R.randint(1, 4))], "leaf": R.choice(LEAVES), "front_end": "sphinx"}
+        eval_case(ctx, case)
+        ctx.case(("struct-sphinx", repr(case)), True)
+        if ctx.time_left() < ctx.budget_s * 0.75:
+            break
     # 2. includes
     n_i = 300 if quick else 20000
     for i in range(n_i):
@@ -445,7 +469,7 @@ def run_shard(ctx):
 
 def finalize(m, tier):
     c = m["counters"]
-    for k, lo in (("cases_judged", 3000), ("markers_judged", 8000), ("lines_correct:leaf", 5000), ("lines_correct:container", 5000), ("warning_lines_correct", 2000), ("include_cases", 500)):
+    for k, lo in (("cases_judged", 3000), ("markers_judged", 8000), ("lines_correct:leaf", 5000), ("lines_correct:container", 5000), ("warning_lines_correct", 2000), ("include_cases", 500), ("sphinx_cases", 100)):
         if c.get(k, 0) < lo:
             m["inconclusive"].append(f"monitor observed only {c.get(k, 0)} '{k}' events (< {lo})")
     nodoc = sum(v for k, v in c.items() if k.startswith("no_document:"))
